@@ -156,9 +156,16 @@ class Probe:
     """stand-in for Ctx used when one property's rule re-uses another's template as a discharge
     rule: records failures, writes nothing"""
 
-    def __init__(self):
+    def __init__(self, facts=None, tier="quick"):
         self.failed = []
         self.count = 0
+        self.facts = facts or {}
+        self.tier = tier
+        self.extra = {}
+        self.trusted = []
+        self.assumptions = []
+        self.explanation = ""
+        self.rule = ""
 
     def oblige(self, key, ok, msg=None, cfg=None, where=None, nontrivial=True):
         self.count += 1
